@@ -241,6 +241,9 @@ def _unique_name(params: Any) -> str:
         # In all of those cases, use the hashing method below instead.
         word = re.compile(r"[A-Za-z0-9]+|-?[0-9]+(e-?[0-9]+)?")
         readable = all(word.fullmatch(v) for v in values)
+        # The string "None" would be indistinguishable from the value `None`.
+        if any(getattr(params, k) == "None" for k in keys):
+            readable = False
         if readable and len(name) < 128:  # Probably(?) a reasonable length limit
             return name
 
@@ -321,6 +324,11 @@ def hdl21_naming_encoder(obj: Any) -> Any:
     if isinstance(obj, ExternalModuleCall):
         # Mix the qualified class names/paths with the parameters
         return module_qualname(obj.module) + _unique_name(obj.params)
+
+    if isinstance(obj, (set, frozenset)):
+        # Sets iterate in hash order, which differs from one Python process to the next.
+        # Name them by the sorted encodings of their elements.
+        return sorted(json.dumps(x, default=hdl21_naming_encoder, sort_keys=True) for x in obj)
 
     # Dataclasses also require custom handling, as the default encoder deep-copies them,
     # often invoking methods not supported on several Hdl21 types.
